@@ -14,4 +14,8 @@ def obligations(tier):
         obs.append(Ob(f"C12.shape/{m}", "c10", "c_json", {"VF_MODE": m}, t, FN12,
                       "1..2 columns, schema or not, optional index, ALTER FK none/1/2 cols, group_by_type symbolic; keys/types of the table entry, "
                       "primary_key subset of column names, pure-Python jsonable(), json_dump=True == json.dumps(result)"))
+    for i in (15, 16, 2):
+        obs.append(Ob(f"C12.pk/item1={i}", "drv", "c_items", {"VF_I1": i, "VF_NAMES": 0}, 300 if tier == "quick" else 900,
+                      ["real LALR driver + actions + BaseData post-processing (harness/drv.py c_items)"],
+                      "primary_key is a list of the table's column names also when key parts carry ASC / DESC: item #%d + any second table-level item (symbolic)" % i))
     return obs
